@@ -73,6 +73,10 @@ CHECKS = {
             "Seeded histories over <=12 files (2% of runs 1000-2100 files, for the SQL parameter-batch boundary) under a simulated clock that advances by 0 .. 1 day, steps backwards and ticks coarsely (1us/1ms/1s/2s): write, in-place overwrite with the same or another length, append, atomic replace (new inode, optionally same length), touch, delete, re-create; interleaved queries state.get, get_many (batch knob 2/3/7/999, stat info supplied or not), hash_file(state), build(dry_run), build_entries(compute_hash), index md5 and update(new, old); injected rows of another algorithm, of the legacy algorithm name and of a newer format version; lookups/saves through a non-local filesystem. Every returned hash is compared with the reference digest of the file's current bytes at that instant; batch and single answers must agree; a mutation that leaves (inode, mtime, size) all identical is detected from the recorded real stat triples, counted and excluded rather than generated away.",
             "mtimes are kept >= 1us apart (the token is built from the float st_mtime). Caller-supplied stat info is always fresh.",
             "deterministic simulation: seeded mutation/query histories under a simulated clock (advance, step back, coarse ticks) vs reference digests", "DESIGN.md §5 C13"),
+    "C17": ("exploration",
+            "A logical index (explicit files with explicit parents plus 1-3 directory objects at depth 0-2 that contain sub-directories) is realised lazily (one unloaded entry per directory object + ObjectStorage on a real cache) and explicitly, in memory or SQLite-backed via DataIndex.open(); a seeded ORDER of 4-20 accesses - lookup, membership, iteritems(prefix, shallow), ls, info, diff(L, E, hash_only), DataFileSystem ls/info/find/open, view(filter).iteritems over prefix-closed filters (first and second iteration), load() twice - decides at which moment each directory gets loaded. Every answer of the lazy index must equal the explicit index's and the model's; the explicit index is checked against the model too, so a wrong model is a harness error, not an alarm.",
+            "Entries are compared on (key, isdir, hash value); the loaded flag and sizes are not observables. longest_prefix is not part of the statement and is not compared. No fault dimension (a failing load is C09's subject).",
+            "deterministic simulation: seeded access-order histories on lazy vs explicit realisations vs reference model", "DESIGN.md §5 C17"),
 }
 
 NA_FIXED = {
